@@ -1261,3 +1261,117 @@ Proof.
     unfold keys in Hk. apply in_map_iff in Hk. destruct Hk as ([q' ci] & Eq & Hci). cbn in Eq. subst q'.
     unfold all_returned in H. rewrite forallb_forall in H. specialize (H _ Hci). cbn in H. eauto.
 Qed.
+
+(* ------------------------------------------------------------ recycled Responses carry no pending result *)
+
+Lemma removeN_In : forall l w x, In x (removeN w l) <-> In x l /\ x <> w.
+Proof.
+  intros l w x. unfold removeN. rewrite filter_In. split; intros [A B]; split; auto.
+  - apply negb_true_iff in B. apply N.eqb_neq in B. assumption.
+  - apply negb_true_iff. now apply N.eqb_neq.
+Qed.
+
+Lemma skipn_app_len : forall {A} (a d : list A), skipn (length a) (a ++ d) = d.
+Proof. induction a; cbn; auto. Qed.
+
+Record RInv (r : rsys) : Prop := {
+  ri_a : InvA (r_sys r);
+  ri_ret : forall q, In q (r_ret r) -> In q (keys (done (r_sys r)));
+  ri_chan : forall q, In q (r_chan r) -> In q (keys (done (r_sys r)));
+  ri_clean : forall q, In q (r_ret r) -> ~ In q (r_chan r)
+}.
+
+Lemma RInv_init : RInv rsys_init.
+Proof. constructor; cbn; try apply InvA_init; intros; contradiction. Qed.
+
+(** one step of the underlying system: the new completions are of calls that were not completed before *)
+Lemma step_new_done : forall s e s', InvA s -> step s e = SOk s' ->
+  done s' = done s ++ new_done s s' /\ forall q, In q (keys (new_done s s')) -> ~ In q (keys (done s)).
+Proof.
+  intros s e s' I H. destruct (step_done_mono _ _ _ H) as [d Ed]. unfold new_done. rewrite Ed, skipn_app_len.
+  split; [reflexivity|]. intros q Hq Hd.
+  pose proof (InvA_step _ _ _ I H) as I'. destruct I' as [_ _ Hnd _ _ _ _ _ _ _]. rewrite Ed, keys_app in Hnd.
+  clear - Hnd Hq Hd. induction (keys (done s)) as [|a t IH]; cbn in *; [contradiction|].
+  inversion Hnd as [|? ? Hni Hnd']; subst. destruct Hd as [->|Hd]; [apply Hni; apply in_app_iff; now right|auto].
+Qed.
+
+Lemma RInv_base : forall r e s', RInv r -> step (r_sys r) e = SOk s' ->
+  InvA s' /\ (forall q, In q (keys (done (r_sys r))) -> In q (keys (done s'))) /\
+  (forall q, In q (keys (new_done (r_sys r) s')) -> In q (keys (done s')) /\ ~ In q (r_ret r) /\ ~ In q (r_chan r)).
+Proof.
+  intros r e s' [Ia Hr Hc Hcl] H. destruct (step_new_done _ _ _ Ia H) as [Ed Hnew].
+  split; [eapply InvA_step; eauto|]. split.
+  - intros q Hq. rewrite Ed, keys_app. apply in_app_iff. now left.
+  - intros q Hq. split; [rewrite Ed, keys_app; apply in_app_iff; now right|].
+    split; intro F; apply (Hnew q Hq); auto.
+Qed.
+
+Lemma cancel_not_pending : forall s q dp s',
+  step s (ECancel q dp) = SOk s' \/ step s (ETimeout q dp) = SOk s' -> ~ In q (keys (cs_calls (cl s'))).
+Proof.
+  intros s q dp s' [H|H]; cbn [step] in H;
+    (destruct (cl_cancel (cl s) q dp) as [[c found]|] eqn:Ec; [|discriminate];
+     destruct (cl_cancel_calls _ _ _ _ _ Ec) as [(-> & -> & Hf)|(-> & Hcc & _)]; inversion H; subst; cbn).
+  - now apply find_None_keys.
+  - rewrite Hcc. intro F. apply keys_remove in F. tauto.
+  - now apply find_None_keys.
+  - rewrite Hcc. intro F. apply keys_remove in F. tauto.
+Qed.
+
+Lemma RInv_step : forall r e r', RInv r -> rstep r e = Some r' -> RInv r'.
+Proof.
+  intros r e r' I H. destruct e as [e0|q|q tmo dp]; cbn [rstep] in H.
+  - assert (G : forall s', step (r_sys r) e0 = SOk s' ->
+              RInv {| r_sys := s'; r_chan := r_chan r ++ keys (new_done (r_sys r) s'); r_ret := r_ret r |}).
+    { intros s' Hs. destruct (RInv_base _ _ _ I Hs) as (Ia' & Hmono & Hnew). destruct I as [Ia Hr Hc Hcl].
+      constructor; cbn; auto.
+      - intros q Hq. apply in_app_iff in Hq. destruct Hq as [Hq|Hq]; [auto|apply Hnew; assumption].
+      - intros q Hq Hq2. apply in_app_iff in Hq2. destruct Hq2 as [Hq2|Hq2]; [eapply Hcl; eauto|].
+        destruct (Hnew q Hq2) as (_ & F & _). contradiction. }
+    destruct e0; try discriminate;
+      try (destruct (step (r_sys r) _) as [s'| |] eqn:Hs; [|discriminate|discriminate]; inversion H; subst; now apply G).
+    (* ECall *)
+    destruct (step (r_sys r) (ECall q b fail)) as [s'| |] eqn:Hs; [|discriminate|discriminate]. inversion H; subst; clear H.
+    destruct (RInv_base _ _ _ I Hs) as (Ia' & Hmono & Hnew). destruct I as [Ia Hr Hc Hcl].
+    constructor; cbn; auto.
+    + intros k Hk. apply in_app_iff in Hk. destruct Hk as [Hk|Hk]; [apply Hnew; assumption|auto].
+    + intros k Hk Hk2. apply in_app_iff in Hk. destruct Hk as [Hk|Hk]; [|eapply Hcl; eauto].
+      destruct (Hnew k Hk) as (_ & _ & F). contradiction.
+  - destruct (memN q (r_chan r) && negb (memN q (r_ret r))) eqn:E; [|discriminate]. inversion H; subst; clear H.
+    apply andb_true_iff in E. destruct E as [E1 _]. apply memN_In in E1. destruct I as [Ia Hr Hc Hcl].
+    constructor; cbn; auto.
+    + intros k [<-|Hk]; auto.
+    + intros k Hk. apply removeN_In in Hk. destruct Hk. auto.
+    + intros k [<-|Hk] Hk2; apply removeN_In in Hk2; destruct Hk2 as [Hk2 Hne]; [congruence|eapply Hcl; eauto].
+  - destruct (memN q (keys (log (r_sys r))) && negb (memN q (r_ret r))) eqn:E; [|discriminate].
+    apply andb_true_iff in E. destruct E as [E1 _]. apply memN_In in E1.
+    destruct (step (r_sys r) (if tmo then ETimeout q dp else ECancel q dp)) as [s'| |] eqn:Hs; [|discriminate|discriminate].
+    inversion H; subst; clear H.
+    destruct (RInv_base _ _ _ I Hs) as (Ia' & Hmono & Hnew). destruct I as [Ia Hr Hc Hcl].
+    (* after cancelCall the call is not pending, hence (it was started) it is completed *)
+    assert (Hlog : log s' = log (r_sys r)).
+    { rewrite (step_log _ _ _ Hs). destruct tmo; cbn; now rewrite app_nil_r. }
+    assert (Hnp : ~ In q (keys (cs_calls (cl s')))) by (eapply cancel_not_pending; destruct tmo; eauto).
+    assert (Hdone : In q (keys (done s'))).
+    { destruct Ia' as [_ _ _ Hpart _ _ _ _ _ _]. rewrite <- Hlog in E1. apply Hpart in E1. tauto. }
+    constructor; cbn; auto.
+    + intros k [<-|Hk]; auto.
+    + intros k Hk. apply removeN_In in Hk. destruct Hk. auto.
+    + intros k [<-|Hk] Hk2; apply removeN_In in Hk2; destruct Hk2 as [Hk2 Hne]; [congruence|eapply Hcl; eauto].
+Qed.
+
+Lemma RInv_run : forall evs r r', RInv r -> rrun r evs = Some r' -> RInv r'.
+Proof.
+  induction evs as [|e t IH]; cbn; intros r r' I H; [inversion H; subst; assumption|].
+  destruct (rstep r e) eqn:E; [|discriminate]. eapply IH; [eapply RInv_step; eauto|assumption].
+Qed.
+
+(** pool_clean: whatever the interleaving, once Do has returned for a call (so that its Response may be recycled
+    by PutResponse), the result channel of that Response is empty, and no result can arrive later: the call is
+    not pending, and results are delivered to pending calls only. *)
+Theorem pool_clean : forall evs r, rrun rsys_init evs = Some r ->
+  forall q, In q (r_ret r) -> ~ In q (r_chan r) /\ ~ In q (keys (cs_calls (cl (r_sys r)))).
+Proof.
+  intros evs r H q Hq. destruct (RInv_run _ _ _ RInv_init H) as [Ia Hr Hc Hcl]. split; [auto|].
+  intro F. destruct Ia as [_ _ _ _ Hdisj _ _ _ _ _]. eapply Hdisj; eauto.
+Qed.
